@@ -50,7 +50,23 @@ def run(tier, seed):
         else:
             p = G.gen_pat_raw(rng, rng.choice([1, 2, 3]), names=3)
             lab = 'raw'
-        x = rng.randrange(5)
+        if k > 0.9:
+            # pending substitutions over constrained metavariables whose plug mentions the queried variable
+            X = rng.randrange(3)
+            Y = rng.randrange(3)
+
+            def lst():
+                return tuple(sorted(set(rng.choice([X, Y, rng.randrange(3)]) for _ in range(rng.randrange(0, 3)))))
+            mv = ('MVar', rng.randrange(3), lst() if rng.random() < 0.3 else (), lst() if rng.random() < 0.4 else (), lst(), lst(), ())
+            plug = rng.choice([('SVar', X), ('Imp', ('SVar', X), G.BOT), ('App', ('SVar', X), ('Sym', 0)), ('EVar', X),
+                               ('SSub', G.phi(3), Y, ('SVar', X)), ('ESub', G.phi(3), Y, ('SVar', X))])
+            p = (rng.choice(['SSub', 'ESub']), mv, Y, plug)
+            if rng.random() < 0.5:
+                p = (rng.choice(['SSub', 'ESub']), G.phi(4), rng.randrange(3), p) if rng.random() < 0.5 else ('Imp', p, G.BOT)
+            lab = 'directed-subst'
+            x = X
+        else:
+            x = rng.randrange(5)
         pats.append((p, x))
         lines.append(f'F {G.phex(p)} {x}')
         labels.append('judge:' + lab)
@@ -63,12 +79,22 @@ def run(tier, seed):
         ids = sorted(O.mvar_ids(p))
         if not ids:
             continue
-        far = rng.random() < 0.7
+        far = rng.random() < 0.5
+        directed = (not far) and rng.random() < 0.6
+        targets = subst_targets(p)
         plugs = []
         for _ in ids:
-            q = G.gen_pat(rng, rng.choice([0, 1, 2]), names=3, meta=False, subst=False)
-            if far:
-                q = rename(q, 5)
+            if directed and targets:
+                # a plug that uses a substituted variable of p in a chosen polarity: this is what resolves a pending
+                # substitution into a position that the judgement must have anticipated
+                kind, v = rng.choice(targets)
+                base = ('EVar', v) if kind == 'e' else ('SVar', v)
+                q = rng.choice([base, ('Imp', base, G.BOT), ('Imp', ('Imp', base, G.BOT), G.BOT), ('App', base, ('Sym', 0)),
+                                ('Imp', ('Sym', 1), base), ('Imp', base, base)])
+            else:
+                q = G.gen_pat(rng, rng.choice([0, 1, 2]), names=3, meta=False, subst=False)
+                if far:
+                    q = rename(q, 5)
             plugs.append(q)
         ln = f'I {G.phex(p)} {G.hexs(ids)} ' + ' '.join(G.phex(q) for q in plugs)
         inst_cases.append((p, x, ln))
@@ -143,6 +169,19 @@ def run(tier, seed):
                           'instantiated on the Rust side with concrete plugs for all its metavariables; non-trivial = not rejected; distinct by request')
     return R.finish(trusted_base=C.TRUSTED_COMMON + ['translators/rust_judge.py (Rust-subset parser/emitter for the six judgement functions of impl Pattern; fail closed)', 'harness/rust/harness.rs entry points F/W/I calling the private lib.rs functions',
                                                     'harness/mloracle.py textbook free-variable/polarity functions (search only)'])
+
+
+def subst_targets(p, acc=None):
+    """variables that pending substitutions of p substitute: [('e', x), ('s', X), ...]"""
+    acc = [] if acc is None else acc
+    if p[0] == 'ESub':
+        acc.append(('e', p[2]))
+    elif p[0] == 'SSub':
+        acc.append(('s', p[2]))
+    for q in p[1:]:
+        if isinstance(q, tuple) and q and isinstance(q[0], str):
+            subst_targets(q, acc)
+    return acc
 
 
 def rename(p, off):
